@@ -1,7 +1,6 @@
-(* C35 -- the Pow-of-Pow rule of RefineVisitor, guarded: (b^k)^n -> b^(k n) for positive b, and
-   -> abs(b)^(k n) for real b, are value preserving when the inner exponent k is an EVEN INTEGER
-   and the outer exponent n a half-integer (the case exercised by symengine's own tests; without
-   the guard the rule is refuted, RefineProofs.pow_rule_abs_refuted).  Real arithmetic in Q. *)
+(* C35 -- the Pow-of-Pow rule of RefineVisitor: (b^k)^n -> abs(b)^(k n) for real b (taken only for an
+   even integer k since the repair ef8465f) and (b^k)^n -> b^(k n) for positive b are value
+   preserving when k is an even integer and n a half-integer.  Real arithmetic in Q. *)
 From SE Require Import Assume.AssumeSem Num.NumQi Assume.RefineModel
   Assume.AssumeProofs Assume.AssumeProofs2 Assume.AssumeProofs3 Assume.C34Theorems Assume.RefineProofs.
 From Coq Require Import QArith Qabs Qpower List ZArith Bool Lia Lqa Setoid Morphisms.
@@ -97,7 +96,7 @@ Section PowRule.
     destruct t; cbn [t_true] in H; try discriminate H.
     destruct (negb (n_is_complex (NInt (2 * j))) && negb (n_is_complex xn)); [|discriminate H].
     destruct (is_positive A ib) as [u| | |] eqn:EP; cbn [qb] in H; try discriminate H.
-    destruct u; cbn [t_true] in H; try discriminate H.
+    destruct u; cbn [t_true] in H; try (destruct (Z.even (2 * j)); discriminate H).
     pose proof (vfin_denote _ _ _ V) as D.
     assert (RR : v_real (VC bz)) by (apply (real_sound_guarded rho A HO ib (VC bz) K ER D); discriminate).
     destruct (positive_sound_guarded rho A HO ib TT (VC bz) G EP D) as [PP _]. destruct (PP eq_refl) as [_ PB].
@@ -125,5 +124,36 @@ Section PowRule.
     - destruct (Qlt_le_dec b1 0) as [L|L].
       + rewrite (Qabs_neg b1) by lra. ring.
       + rewrite (Qabs_pos b1 L). reflexivity.
+  Qed.
+  (* the abs branch is only taken for an even integer inner exponent *)
+  Lemma refine_pow_abs_shape : forall nb ne, refine_pow A nb ne = DAbs ->
+    exists ib j xn, nb = EPow ib (ENum (NInt (2 * j))) /\ ne = ENum xn.
+  Proof.
+    intros nb ne H. unfold refine_pow in H.
+    destruct nb as [ | | | | | |ib ie| | | | | | | | | | | ]; try discriminate H.
+    destruct ne as [xn| | | | | | | | | | | | | | | | | ]; try discriminate H.
+    destruct (is_real A ib) as [t| | |]; cbn [qb] in H; try discriminate H.
+    destruct (t_true t); [|discriminate H].
+    destruct ie as [m| | | | | | | | | | | | | | | | | ]; try discriminate H.
+    destruct (negb (n_is_complex m) && negb (n_is_complex xn)); [|discriminate H].
+    destruct (is_positive A ib) as [u| | |]; cbn [qb] in H; try discriminate H.
+    destruct (t_true u); [discriminate H|].
+    destruct m as [z| | | | | |]; try discriminate H.
+    destruct (Z.even z) eqn:EV; [|discriminate H].
+    apply Z.even_spec in EV. destruct EV as [j ->]. eauto.
+  Qed.
+
+  (* every firing of the abs branch preserves the value (outer exponent a half-integer) *)
+  Theorem pow_rule_abs_sound : forall nb ne, refine_pow A nb ne = DAbs ->
+    exists ib j xn, nb = EPow ib (ENum (NInt (2 * j))) /\ ne = ENum xn /\
+      forall n m bz f, keys_ok ib = true ->
+        vfin (denote rho ib) = Some bz -> vfin (num_val xn) = Some (n, 0) ->
+        q_as_int n = None -> q_as_int (2 * n) = Some m ->
+        qi_pow (qi_powz bz (2 * j)) (n, 0) = PFin f ->
+        qi_eq f (qi_powz (Qabs (fst bz), 0) (j * m)).
+  Proof.
+    intros nb ne H. destruct (refine_pow_abs_shape nb ne H) as (ib & j & xn & -> & ->).
+    exists ib, j, xn. split; [reflexivity|]. split; [reflexivity|]. intros n0 m0 bz f K V X N1 N2 P.
+    now apply (pow_rule_abs_even ib xn j n0 m0 bz f H).
   Qed.
 End PowRule.
